@@ -167,15 +167,46 @@ fn resource_rich() -> BoxedStrategy<E> {
     .boxed()
 }
 
-/// `ffv dump c15`: records for the texts in `input_file`, one per line
+/// order in which process number `variant` handles the texts: 0 = as given, 1 = reversed,
+/// 2.. = rotated/strided (results must not depend on what was parsed or compiled before)
+pub fn visiting_order(n: usize, variant: usize) -> Vec<usize> {
+    let mut idx: Vec<usize> = (0..n).collect();
+    match variant {
+        0 => {}
+        1 => idx.reverse(),
+        v => {
+            // stride coprime with n
+            let mut step = 7919 + v;
+            while n > 0 && gcd(step, n) != 1 {
+                step += 1;
+            }
+            idx = (0..n).map(|i| (i * step + v) % n.max(1)).collect();
+        }
+    }
+    idx
+}
+fn gcd(a: usize, b: usize) -> usize {
+    if b == 0 {
+        a
+    } else {
+        gcd(b, a % b)
+    }
+}
+
+/// `ffv dump c15`: records for the texts in `input_file`, one per line (in input order), computed
+/// in the visiting order selected by FFV_C15_ORDER
 pub fn dump(texts: &[String], out: &str) -> i32 {
+    let variant: usize = std::env::var("FFV_C15_ORDER").ok().and_then(|v| v.parse().ok()).unwrap_or(0);
+    let mut hashes = vec![String::new(); texts.len()];
+    for i in visiting_order(texts.len(), variant) {
+        hashes[i] = format!("{:016x}", stable_hash(&record(&texts[i])));
+    }
     let mut f = match std::fs::File::create(out) {
         Ok(f) => f,
         Err(_) => return 2,
     };
-    for t in texts {
-        let r = record(t);
-        if writeln!(f, "{:016x}", stable_hash(&r)).is_err() {
+    for h in hashes {
+        if writeln!(f, "{h}").is_err() {
             return 2;
         }
     }
@@ -193,7 +224,7 @@ pub fn cross_process(texts: &[String], procs: usize) -> Result<usize, String> {
     let mut result = Ok(texts.len());
     for p in 0..procs {
         let out = format!("{scratch}/c15-out-{}-{p}.txt", std::process::id());
-        let st = std::process::Command::new(&exe).args(["dump", "c15", "--in", &input, "--out", &out]).status();
+        let st = std::process::Command::new(&exe).args(["dump", "c15", "--in", &input, "--out", &out]).env("FFV_C15_ORDER", (p + 1).to_string()).status();
         if !matches!(&st, Ok(s) if s.code() == Some(0)) {
             result = Err(format!("INFRA: dump process failed: {st:?}"));
             break;
@@ -321,6 +352,23 @@ pub fn run(ctx: &Ctx) -> Report {
     let trees = sample_values(ctx.seed, "C15-cross", 0, n, &resource_rich());
     let mut texts: Vec<String> = trees.iter().filter_map(render::canonical).collect();
     texts.extend(crate::corpus::grammar_texts(ctx.seed, n / 2));
+    // near-duplicates: the same words with other blanks inside quotes, formats that are prefixes of
+    // one another, strings with quote/backslash (a result must not depend on earlier calls or on
+    // per-process hash seeds)
+    for w in ["a b", "a  b", "a\tb", "a   b", "say \"hi\"", "a\\b", "a\"b\\c", "it's", "x\\\"y"] {
+        for kw in ["-name", "-iname", "-path", "-pool", "-xattr", "-fprint"] {
+            if let Some(t) = render::spell_string(w, &mut render::Canon) {
+                texts.push(format!("{kw} {}", t.text));
+            }
+        }
+    }
+    for f in sample_values(ctx.seed, "C15-fmt", 0, n / 8 + 8, &crate::checks::c14::gen_format()) {
+        if !f.contains('\'') && !f.is_empty() {
+            for suffix in ["", "%p", " %s\\n", "\\n", "x", "%%"] {
+                texts.push(format!("-printf '{f}{suffix}'"));
+            }
+        }
+    }
     match cross_process(&texts, 3) {
         Ok(k) => {
             total.evaluations += k as u64;
@@ -337,7 +385,7 @@ pub fn run(ctx: &Ctx) -> Report {
     total.samples.truncate(6);
     Report {
         stats: total,
-        rule: "random expressions biased to 8..40 distinct matchers/printers (so that hash-table iteration order would show). (a) in one process: parsing the text twice gives equal results; compiling e1, an unrelated e2, then e1 again gives byte-identical programs (embedded epoch normalised) and equal destination tables; (b) the same texts are parsed and compiled in three fresh processes (fresh hash seeds) and the canonical records must be identical to this process's; (c) every wall-clock second embedded by a time test lies between clock readings taken around the compile call, also in histories of compile calls on one thread in which earlier calls fail after a time test was emitted and the wall clock moves into the next second in between (32 such histories in the quick tier). Non-trivial: >=8 matcher/printer requests. Distinct: by (tree pair) / input text.".into(),
+        rule: "random expressions biased to 8..40 distinct matchers/printers (so that hash-table iteration order would show). (a) in one process: parsing the text twice gives equal results; compiling e1, an unrelated e2, then e1 again gives byte-identical programs (embedded epoch normalised) and equal destination tables; (b) the same texts (plus near-duplicates: other blanks inside quotes, formats that are prefixes of one another, strings with quotes/backslashes) are parsed and compiled in three fresh processes (fresh hash seeds), each visiting them in a different order (reversed, strided), and the canonical records must be identical to this process's; (c) every wall-clock second embedded by a time test lies between clock readings taken around the compile call, also in histories of compile calls on one thread in which earlier calls fail after a time test was emitted and the wall clock moves into the next second in between (32 such histories in the quick tier). Non-trivial: >=8 matcher/printer requests. Distinct: by (tree pair) / input text.".into(),
         assumptions: vec!["the embedded second is recognised as the first operand of (- N (atime|ctime|mtime))".into()],
         exhaustive: false,
     }
